@@ -16,7 +16,7 @@ import shutil
 import sys
 import tempfile
 
-from harness import cli, world as W
+from harness import cli, core, world as W
 
 TREE = {"src/a.c": "int a;\n", "src/sub/b.c": "int b;\n", "src/sub/skip.o": "o\n", "docs/r e.md": "# r\n", "docs/guide.md": "g\n",
         "build/x.o": "x\n", "we ird/ü.txt": "u\n", "junk.pyc": "j\n", "README": "hi\n", "src2/c.c": "int c;\n",
@@ -126,12 +126,17 @@ def _quiet():
     return contextlib.redirect_stdout(io.StringIO())
 
 
-def equiv_case(rng, res, tool):
+def equiv_case(rng, res, tool, fixed=None):
     """tool: run / record / mock."""
     import in_toto.runlib as rl
     k = rng.choice(W.pool())
     o = gen_options(rng)
     no_command = tool == "run" and rng.random() < 0.15
+    if fixed:
+        full = gen_options(rng)
+        o = {a: fixed["options"].get(a, None if not isinstance(full[a], bool) else False) for a in full}
+        no_command = bool(fixed.get("no_command"))
+        k = next((x for x in W.pool() if x.keyid == fixed.get("keyid")), k)
     cmd = [sys.executable, "-c", SCRIPT]
     roots = [tempfile.mkdtemp(prefix="verif-eq-cli-"), tempfile.mkdtemp(prefix="verif-eq-lib-")]
     cwd = os.getcwd()
@@ -201,7 +206,8 @@ def equiv_case(rng, res, tool):
             for v in side["files"].values():
                 v.pop("signed_by_key", None)        # mock links are unsigned
     same = same_status and c["files"] == l["files"]
-    desc = {"tool": tool, "options": {a: b for a, b in o.items() if b not in (None, False)}, "no_command": no_command, "key": k.kind}
+    desc = {"tool": tool, "options": {a: b for a, b in o.items() if b is not None and b is not False}, "no_command": no_command, "key": k.kind,
+            "keyid": k.keyid}
     res.case({"desc": desc, "status": c["status"], "links": sorted(c["files"])}, True, same, sample_cap=1)
     res.count("cli_equiv_" + tool)
     if not same:
@@ -228,3 +234,11 @@ def _do_step(top):
         f.write("out")
     with open(os.path.join(top, "src", "a.c"), "a") as f:
         f.write("//edit\n")
+
+
+def replay(case):
+    """Re-runs one front-end-against-library comparison with the recorded options."""
+    import random
+    res = core.Result()
+    equiv_case(random.Random(0), res, case["desc"]["tool"], fixed=case["desc"])
+    return {"agreed": not res.failures, "failures": res.failures}
